@@ -251,6 +251,10 @@ def finish(prop, tier, level, coverage, violations, t0, assumptions=(), max_repo
     matched = {}
     new = {}
     known_examples = {}
+    dump = os.environ.get('VERIF_DUMP_SIGNATURES')      # maintenance aid: every violation signature of this run, one per line
+    if dump:
+        with open(dump, 'w') as f:
+            f.write(''.join(v.signature.replace('\n', ' ') + '\n' for v in violations))
     for v in violations:
         hit = None
         for e in known:
